@@ -193,7 +193,8 @@ def login_reply(rnd, session=None):
     return head + sess + bytes(tail)
 
 
-NAME_ALPHABETS = {"ascii": "abcXYZ 019_-", "heb": "אבגדהוזחטי ", "acc": "éàüñøß", "emoji": "😀🚀𝄞", "mixed": "aé😀א"}
+NAME_ALPHABETS = {"ascii": "abcXYZ 019_-", "heb": "אבגדהוזחטי ", "acc": "éàüñøß", "emoji": "😀🚀𝄞", "mixed": "aé😀א",
+                  "not-nfc": "e\u0301a\u0308\u2126\u212b\ufb01", "marks": "\u200e\u00a0~\u3000x"}
 def rand_name(rnd):
     k = rnd.choice(list(NAME_ALPHABETS)); n = rnd.choice([0, 1, 2, 3, 8, 10, 11, 16, 17, 31, 32, 33, 40, rnd.randrange(41)])
     s = "".join(rnd.choice(NAME_ALPHABETS[k]) for _ in range(n))
@@ -255,7 +256,9 @@ def rand_op_case(rnd, kind, reply_mode="valid", accepted_args=False):
         elif k < .85: replies[i] = rand_bytes(rnd, rnd.randrange(1, 200))
         else:
             b = bytearray(replies[i]); b[rnd.randrange(len(b))] = rnd.randrange(256); replies[i] = bytes(b)
-    return {"kind": kind, "args": args, "id": "%06x" % rnd.randrange(1 << 24), "key": "%02x" % rnd.randrange(256),
+    dev_id = "%06x" % rnd.choice([rnd.randrange(1 << 24)] * 5 + [rnd.randrange(1 << 16), rnd.randrange(256), 0])      # leading zero bytes included
+    if rnd.random() < .15: dev_id = dev_id.upper()                                                                  # the id is hex text: its case is the caller's
+    return {"kind": kind, "args": args, "id": dev_id, "key": "%02x" % rnd.randrange(256),
             "now": now, "replies": [r.hex() for r in replies]}
 
 
